@@ -22,6 +22,8 @@ CLAIMED = {
          "7.C10", "Coq proof (key functions, congruence) + direct law oracles on the implementation + model correspondence of ==" ),
  "C11": ("Coq theorems: on the modelled paths the failure points of the real code are explicit results (Escaped / FCrash / undefined int()) and are proved unreachable (Specifier.contains never escapes for accepted specifiers, every int() in Version is applied to digits, canonicalize_version total, filename parsers give a value or the documented error); every public entry point is additionally called on valid, mutated, arbitrary-Unicode and byte inputs and the class of any escaping exception is checked (testing, not proof, for the runtime part)",
          "7.C11", "Coq proof of unreachability of modelled failure points + exception-class law oracle on malformed inputs"),
+ "C20": ("Coq theorems for what a functional model can carry (string forms built by sorting are invariant under permutation of the members; the state-machine and permutation theorems of the set, metadata and platform models); the runtime half (hash seed, call order, repetition, argument mutation) is exercised by running one call battery in separate processes under several PYTHONHASHSEED values and call orders and comparing transcripts, plus supply-order laws on real objects",
+         "7.C20", "Coq proof of permutation/history invariance on the models + multi-process transcript comparison (testing for the CPython-heap part)"),
 }
 NA_REASON = "check not built yet in this revision (planned, see DESIGN.md section 7); nothing is claimed"
 checks, na = [], []
